@@ -8,7 +8,7 @@ CONSTANTS
   MaxPkts = 1
   PeerLimits = {2}
   MCCids = {"P1"}
-  MCToks = {"Z", "T1"}
+  MCToks = {"T1"}
   Sides = {"client", "server"}
   Focus = {"local", "remote"}
   MCScids = {"P0", "ZL"}
